@@ -7,7 +7,7 @@ Trace == ndJsonDeserialize(IOEnv.TRACE)
 VARIABLES l, bad
 
 Conjuncts == {"C13_NoPanic", "C13_Types", "C13_Constants", "C13_Functions", "C13_Identity", "C13_Methods", "C13_ValueMethods",
-              "C13_Imports", "C13_Locate", "C13_SourceDir"}
+              "C13_Imports", "C13_Locate", "C13_LocateImported", "C13_SourceDir"}
 
 ToSet(s) == {s[i] : i \in 1..Len(s)}
 Aside == {"init", "_"}
@@ -25,6 +25,8 @@ Holds(c, r) ==
                                                                              /\ Len(o.methods[i].got_value) = Len(o.methods[i].want_value)
       [] c = "C13_Imports"      -> o.panicked \/ (o.imports_nil = <<>> /\ o.imports_other = <<>> /\ ToSet(o.imports_keys) = ToSet(o.imports_want))
       [] c = "C13_Locate"       -> o.panicked \/ ~o.in_module \/ o.locate_bad = <<>>
+      (* ... also for positions in imported packages (of a module) that nobody has asked the universe for yet *)
+      [] c = "C13_LocateImported" -> o.panicked \/ o.locate_imported_bad = <<>>
       [] c = "C13_SourceDir"    -> o.panicked \/ ~o.in_module \/ o.srcdir_ok
 
 Failed(r) == {c \in Conjuncts : ~Holds(c, r)}
